@@ -23,6 +23,12 @@ def gen(rng, tier):
         yield Case("derive", [c, hx(seed), nats(pre + post), len(pre)], "pub-path")
         if i % 4 == 0:    # hardened child from a public-only object: refused
             yield Case("derive", [c, hx(seed), nats(pre + [rand_index(rng, True)]), len(pre)], "neg-hardened")
+    # the published SLIP-0010 vectors (incl. the P-256 child whose IL >= n: re-hash) derived publicly after every prefix
+    from harness.props.c03 import DIRECTED
+    for c, seed, path in DIRECTED:
+        if c in ("secp256k1", "nist256p1"):
+            for k in range(len(path)):
+                yield Case("derive", [c, seed, nats(path), k], "vector-public")
     # directed: children whose HMAC left half IL, or whose child public key x, starts with zero bytes (fixed-width conversions)
     import hmac, hashlib
     for i in range(8 if tier == "quick" else 200):
@@ -55,6 +61,11 @@ def gen(rng, tier):
         yield Case("kholawderive", [kind, hx(seed), nats(pre + post), len(pre)], "pub-" + kind)
         if i % 5 == 0:
             yield Case("kholawderive", [kind, hx(seed), nats(pre + [rand_index(rng, True)]), len(pre)], "neg-hardened")
+
+
+def _kvs():
+    from harness.props.c05 import key_net_versions
+    return [Bip32KeyNetVersions(a, b) for a, b in key_net_versions()]
 
 
 def byron_bit255(parent, idx):
@@ -90,8 +101,23 @@ def relations(rng, tier, rpt):
         cls = schemes[name]
         seed = bytes(rng.randrange(256) for _ in range(32))
         how = i % 3
-        m = cls.FromSeed(seed)
+        kvs = _kvs()
+        kv = kvs[rng.randrange(len(kvs))] if name in CLS and i % 3 else None     # non-default extended-key version bytes (ypub/zpub/tpub/…)
+        m = cls.FromSeed(seed, kv) if kv is not None else cls.FromSeed(seed)
         parent = m.ChildKey(rand_index(rng)) if i % 2 else m
+        if kv is not None:
+            how = 0
+            # public-only twins of the parent must hand the parent's version bytes down to their children
+            for w in (cls.FromExtendedKey(parent.PublicKey().ToExtended(), kv),
+                      cls.FromPublicKey(parent.PublicKey().RawCompressed().ToBytes(), Bip32KeyData(depth=int(parent.Depth()), index=int(parent.Index()),
+                                        chain_code=parent.ChainCode(), parent_fprint=parent.ParentFingerPrint()), kv)):
+                ix = rand_index(rng, False)
+                a, b = pub_view(parent.ChildKey(ix)), pub_view(w.ChildKey(ix))
+                n += 1
+                if a != b:
+                    rep("public derivation under non-default key net versions differs from the public half of private derivation (extended public key / metadata)",
+                        "%s seed=%s idx=%d versions=%s" % (name, seed.hex(), ix, kv.Public().hex()), b[-1], a[-1])
+            continue
         if how == 1:      # from raw key + chain code
             parent = cls.FromPrivateKey(parent.PrivateKey().Raw().ToBytes(), Bip32KeyData(depth=int(parent.Depth()), chain_code=parent.ChainCode()))
         elif how == 2:    # from the extended key
